@@ -122,7 +122,11 @@ func HarnessMain(w Wiring) {
 	sched := argValue("--emit-stats") != "" || argValue("--scenario") != "" || argValue("--replay") != ""
 	switch {
 	case (prop == "C01" || prop == "C04") && !sched:
-		s.MassMain(SpecFor(prop, tier))
+		if w.Probe == "shapes" {
+			s.MassMain(ShapesSpec(prop, tier))
+		} else {
+			s.MassMain(SpecFor(prop, tier))
+		}
 	default:
 		if f, ok := schedProps[prop]; ok {
 			f(s, tier)
